@@ -1216,9 +1216,64 @@ class Exec(object):
     def e_GeneratorExp(self, node, path, fr):
         return self.comprehension(node, path, fr, 'list')
 
+    def _comprehension_multi(self, node, path, fr):
+        """comprehension with several `for` clauses (concrete-spine iterables): nested iteration, left to right"""
+        cfr = Frame(path.fresh(), fr.func, [(fr.fid, fr.func)] + list(fr.parents))
+        cfr.locals = set(n.id for g in node.generators for n in ast.walk(g.target) if isinstance(n, ast.Name))
+
+        def rec(gi, p, acc):
+            # -> [(path, acc | Raise)]
+            if gi == len(node.generators):
+                res = []
+                for p2, v in self.eval(node.elt, p, cfr):
+                    res.append((p2, v if isinstance(v, Raise) else acc + [v]))
+                return res
+            gen = node.generators[gi]
+            res = []
+            for p1, it in self.eval(gen.iter, p, fr if gi == 0 else cfr):
+                if isinstance(it, Raise):
+                    res.append((p1, it))
+                    continue
+                states = [(p1, acc)]
+                for x in self.iter_concrete(p1, it):
+                    nxt = []
+                    for p2, a2 in states:
+                        if isinstance(a2, Raise):
+                            nxt.append((p2, a2))
+                            continue
+                        for p3, _ in self.assign(gen.target, x, p2, cfr):
+                            keep = [(p3, True)]
+                            for cnd in gen.ifs:
+                                k2 = []
+                                for p4, flag in keep:
+                                    if flag is not True:
+                                        k2.append((p4, flag))
+                                        continue
+                                    for p5, c in self.eval(cnd, p4, cfr):
+                                        if isinstance(c, Raise):
+                                            k2.append((p5, c))
+                                            continue
+                                        pt, pf = self.branch(p5, self.truth_term(p5, c))
+                                        if pt is not None:
+                                            k2.append((pt, True))
+                                        if pf is not None:
+                                            k2.append((pf, False))
+                                keep = k2
+                            for p4, flag in keep:
+                                if isinstance(flag, Raise):
+                                    nxt.append((p4, flag))
+                                elif flag is False:
+                                    nxt.append((p4, a2))
+                                else:
+                                    nxt.extend(rec(gi + 1, p4, a2))
+                    states = nxt
+                res.extend(states)
+            return res
+        return [(p, acc if isinstance(acc, Raise) else self.new_list(p, acc)) for p, acc in rec(0, path, [])]
+
     def comprehension(self, node, path, fr, kind):
         if len(node.generators) != 1:
-            raise Unsupported('nested comprehension')
+            return self._comprehension_multi(node, path, fr)
         gen = node.generators[0]
         out = []
         for p, it in self.eval(gen.iter, path, fr):
